@@ -89,6 +89,9 @@ class Closure:
         return "<lambda>"
 
 
+_NOT_EVALUATED = object()
+
+
 class PyFunc:
     """A library function modelled by a Python function of the check (held in a variable by the code)."""
 
@@ -472,6 +475,8 @@ class Interp:
                     eq = False
                 else:
                     eq = a.pos == b.pos
+            elif isinstance(a, Obj) and isinstance(b, Obj) and "__cls__" in a.attrs and "__cls__" in b.attrs and "__eqclass__" not in a.attrs:
+                eq = a is b          # objects of repo classes modelled without __eq__: identity
             elif isinstance(a, Obj) and isinstance(b, Obj) and (a is b or "__eqclass__" in a.attrs or "__eqclass__" in b.attrs):
                 # objects modelled with value equality (namedtuples): equal iff same class of equal values
                 eq = a is b or (a.attrs.get("__eqclass__") is not None and a.attrs.get("__eqclass__") == b.attrs.get("__eqclass__"))
@@ -728,7 +733,13 @@ class Interp:
                     kwargs.update(m)
                 else:
                     raise Unsupported("call with ** of a mapping the model does not know (%r)" % (m,))
+        base_pre = _NOT_EVALUATED
         if self.call_hook is not None:
+            if isinstance(fn, ast.Attribute) and getattr(self.call_hook, "needs_receiver", False) \
+                    and not (isinstance(fn.value, ast.Call) and norm(fn.value.func) == "super"):
+                # the hook wants to know which abstract object the method is called on
+                base_pre = self.eval(fn.value, env, f)
+                self.current_receiver = base_pre
             r = self.call_hook(norm(fn), args, kwargs)
             if r is not NotImplemented:
                 return r
@@ -831,6 +842,8 @@ class Interp:
                 return d
             if n == "defaultdict" and len(c.args) == 1 and isinstance(c.args[0], ast.Name) and c.args[0].id in ("list", "dict", "set"):
                 return _collections.defaultdict({"list": list, "dict": dict, "set": set}[c.args[0].id])
+            if n == "reversed" and len(args) == 1 and isinstance(args[0], (list, tuple)):
+                return list(reversed(args[0]))
             if n == "zip":
                 if all(isinstance(a, (tuple, list)) for a in args):
                     return [tuple(x) for x in zip(*args)]
@@ -872,7 +885,7 @@ class Interp:
                 if self.strict_self_calls:
                     raise Unsupported("call of %s.%s(), which the model neither knows nor interprets" % (norm(recv), m))
                 return None  # not inlined: treated as a passing no-op
-            base = self.eval(recv, env, f)
+            base = self.eval(recv, env, f) if base_pre is _NOT_EVALUATED else base_pre
             if isinstance(base, Obj) and "__cls__" in base.attrs and m not in base.attrs:
                 tgt = self.hier.resolve(base.attrs["__cls__"], m)
                 if tgt is not None and not tgt.has_decorator("property"):
